@@ -13,7 +13,7 @@ func init() {
 		ID:  "C39",
 		Run: runC39,
 		Explanation: "Static decision of the structure of the mount's path-to-node cache: (1) LOCK: the tree root is reached only with the cache lock held (exported methods take it, helpers are checked at every caller), mutating methods hold it exclusively; (2) ORDER-move: a move first finds the source (and changes nothing when it does not exist), detaches it from its old parent, then detaches and clears whatever occupied the destination, renames the source to the destination's name and attaches it under the destination's parent — in that order on every path; " +
-			"(3) ORDER-delete: a delete detaches the found node from its parent and clears its whole subtree; clearing recurses into every child; detaching removes the parent's entry under the child's name and forgets the parent; attaching records the node under its own name in the new parent and sets its parent. Equality with a reference tree over operation histories is not decided.",
+			"(3) ORDER-delete: a delete detaches the found node from its parent and clears its whole subtree; clearing recurses into every child; detaching removes the parent's entry under the child's name and forgets the parent; attaching records the node under its own name in the new parent and sets its parent. Equality with a reference tree over operation histories is not decided. Also decided: the source is unlinked from its old parent before the destination subtree is cleared.",
 		Assumptions: []string{"the per-node children locks are subordinate to the cache lock"},
 		Trusted:     baseTrusted,
 	})
